@@ -187,8 +187,18 @@ impl Scn {
                                 run.counters.push(("no_goodbye_where_not_announced", 1));
                             }
                         }
-                        Some((_, _, a)) => {
+                        Some((aix, _, a)) => {
                             run.counters.push(("goodbyes_expected", 1));
+                            // Don't-care: a conflict took the announced name away after the last
+                            // announcement (while a re-registration was being probed) and the service
+                            // has not been announced under its new name yet.  The old name now belongs
+                            // to the other host (its PTR is the very same record), so staying silent is
+                            // accepted; a goodbye that is sent is still compared below.
+                            let ceded = hist[..hi].iter().any(|h| h.2 == Op::Conflict1 && h.1 > *aix);
+                            if ceded && gb.is_empty() {
+                                run.counters.push(("silent_about_a_name_ceded_to_a_conflict", 1));
+                                continue;
+                            }
                             if gb.len() != 1 {
                                 run.viols.push(viol(
                                     format!("C09|goodbye-count|{}", gb.len().min(2)),
